@@ -10,7 +10,7 @@ CRATE = "e_treap"
 DRIVER = "drv_treap"
 DRIVER_MODULE = "Driver.Treap"
 PROPS = "RlibModel.Props.C16"
-PROFILES = ["release"]
+PROFILES = ["release", "debug"]   # debug: the same generators in smaller numbers against the debug build of rlib (cfg(debug_assertions), debug_assert!)
 SHRINK_SEP = ";"
 RULE = ("cases are histories `C16 <item> <stream> ; op ; op …` on a vector of live treaps (operation language and items as C03, incl. the "
         "round-3 operations move/take/dup/collect2 that re-use returned items, the item `key` with the trait's default update/push, priority "
@@ -28,12 +28,25 @@ RULE = ("cases are histories `C16 <item> <stream> ; op ; op …` on a vector of 
         "mid, rand, singles (Treap::new()+insert_at merged), fromitem, scratch, and three mixed histories with split-and-swap rotations, "
         "removals and cut-into-pieces-and-merge-back, at n = 10^3, 10^5 (+ one sorted append of 3*10^5) in quick / 10^3, 31623, 10^6 in "
         "thorough: size, heap order on every edge, height <= 5*log2(n+1)+20, >= 99.9 % pairwise distinct priorities. "
+        "Wave 3 (seeded C16_m10) — the nodes of ONE treap are a SUBSEQUENCE of the thread's node creations: `strides S L` creates S*L nodes one "
+        "after the other and, for EVERY stride s <= S (4096 quick / 16384 thorough) and two windows, links the nodes o, o+s, o+2s, ... (L = 256) into "
+        "a treap with TreapNode::merge, checks heap order, size and the height bound, and takes it apart again through the public fields; "
+        "`rr k c` fills k treaps round-robin (c rounds of appends; every treap checked, then all concatenated), `thin s c` appends c elements with "
+        "s-1 scratch nodes created in between, `keep s` thins a long append/front run to every s-th element — k, s over powers of two, Fibonacci "
+        "numbers and small multiples of them, primes, round decimal counts (2 .. 4181 quick, .. 65536 thorough) and random counts; two new explicit "
+        "`own` patterns (round-robin over 2..21 live treaps; appends with scratch one-element treaps created and dropped in between). "
+        "Wave 3: BOTH BUILD PROFILES — the same generators in smaller numbers also run against the debug build of rlib (cfg(debug_assertions), debug_assert!). "
         "non-trivial = distinct history that creates at least 3 nodes")
 ASSUMPTIONS = [
     "the Lean model of rlib_treap (Model/Treap.lean) is hand-written; it is tied to the code by running both on the same histories",
     "the height bound is a MEASURED claim about the priorities rlib's generator actually draws (statistics of a PRNG are not a theorem); "
     "it is checked on adversarial histories up to 10^6 elements, not proved",
     "single-threaded use (concurrent construction is C17)",
+    "the `big` stream (incl. the wave-3 operations strides/rr/thin/keep) is judged by an independent oracle inside the harness — a walk over the "
+    "public priority/left/right fields with an explicit stack computing height, node count and heap order, compared with the bound the property "
+    "states; the Lean driver only tracks the element count of these macro operations. What the measurement is about is proved: "
+    "`history_shape` (the shape after any history is the Cartesian tree of the elements' creation priorities in sequence order) and, new, "
+    "`monotone_prios_path` / `history_monotone_path` (strictly monotone in-order priorities => the treap is a path)",
 ]
 MANIFEST = {
     "level": "proof (partial)",
@@ -45,12 +58,15 @@ MANIFEST = {
              "in-order priority sequence (`shape_canonical_ties`), and `history_shape`: after any history the in-order priority lists are "
              "plain list operations on the priorities of the inserted elements (`runP`: ++, take/drop, insert at k, eraseIdx; split_by "
              "for every predicate) and the shapes — hence heights — of all live treaps are the Cartesian trees of those lists: "
-             "adversarial operation orders have no power beyond choosing positions. The model is tied to rlib_treap by a differential "
+             "adversarial operation orders have no power beyond choosing positions; conversely (`monotone_prios_path`, `history_monotone_path`) a treap "
+             "whose in-order priorities are strictly monotone is a path, so the height claim is a claim about SUBSEQUENCES of the thread's draws. The model is tied to rlib_treap by a differential "
              "run that reads priority/left/right of every node through the public fields (shapes are compared also with ties)."),
     "note": ("PARTIAL: `height <= 5*log2(n+1)+20` is TESTING, not proof — it depends on the randomness of the priorities drawn by the "
              "library's generator, which is a statistical fact about a PRNG. It is measured on adversarial histories (sorted append, front "
              "insert, alternating ends, middle insert, split-and-swap, random, sequences assembled from many one-element Treap objects, scratch "
-             "treaps between operations, pieces merged back) up to 10^6 elements in the thorough tier, together with a second measured "
+             "treaps between operations, pieces merged back) up to 10^6 elements in the thorough tier, and on treaps whose nodes are a SUBSEQUENCE of "
+             "the thread's creations (every arithmetic progression of creation indices with stride <= 4096 / 16384; k treaps filled round-robin, "
+             "appends thinned by scratch creations, runs thinned afterwards, for k over powers of two, Fibonacci numbers, primes, random counts), together with a second measured "
              "observable (>= 99.9 % of the priorities of a big tree pairwise distinct); the measured heights and distinct counts are "
              "recorded in the evidence. The heap-order and canonical-shape theorems are the proved part and do not depend on it. "
              "Trusted: Lean kernel, axioms propext/Classical.choice/Quot.sound, the hand-written model, harness and driver plumbing."),
@@ -91,7 +107,7 @@ def extract(repo):
 
 
 def harness_args(params, profile):
-    return ["--focus", "C16"]
+    return ["--focus", "C16", "--profile", profile]
 
 
 def extra(ctx):
